@@ -126,11 +126,11 @@ theorem noDlv_tail {l : List MOp} (h : noDlv l) : noDlv l.tail := fun op ho => h
 structure DlvInv (s : State) : Prop where
   tail : ∀ th, noDlv (s.prog th).tail
   wf : ∀ th sid rs k p, headDlv (s.prog th) = some (sid, rs, k, p) →
-        ∃ rs0, s.snaps[sid]? = some ⟨th.ctx, k, p, rs0⟩ ∧ rs.Nodup ∧ rs ≠ [] ∧ (∀ r ∈ rs, r ∈ rs0) ∧
+        ∃ rs0, s.snaps[sid]? = some ⟨th.ctx, k, p, rs0, th⟩ ∧ rs.Nodup ∧ rs ≠ [] ∧ (∀ r ∈ rs, r ∈ rs0) ∧
           (∀ r ∈ rs, ∀ it ∈ (s.ctx th.ctx).got r, it.sid ≠ sid)
   uniq : ∀ th th' sid rs k p rs' k' p', headDlv (s.prog th) = some (sid, rs, k, p) →
         headDlv (s.prog th') = some (sid, rs', k', p') → th = th'
-  got_snap : ∀ c r it, it ∈ (s.ctx c).got r → ∃ rs0, s.snaps[it.sid]? = some ⟨c, it.k, it.p, rs0⟩ ∧ r ∈ rs0
+  got_snap : ∀ c r it, it ∈ (s.ctx c).got r → ∃ rs0 tk, s.snaps[it.sid]? = some ⟨c, it.k, it.p, rs0, tk⟩ ∧ r ∈ rs0
   got_once : ∀ c r, (((s.ctx c).got r).map Item.sid).Nodup
   all : ∀ sid sn, s.snaps[sid]? = some sn → ∀ r ∈ sn.rs,
         (∃ it ∈ (s.ctx sn.c).got r, it.sid = sid) ∨
@@ -196,7 +196,7 @@ theorem dlvInv_snapLocal {s : State} {th : Th} {k : Key} {p : Pub} {rest : List 
     (h : DlvInv s) (hset : SetsInv s) (hprog : s.prog th = .snapLocal k p :: rest) :
     DlvInv { (s.setProg th (if (s.ctx th.ctx).lsubs k = [] then rest
                 else .deliver s.snaps.length ((s.ctx th.ctx).lsubs k) k p :: rest)) with
-             snaps := s.snaps ++ [⟨th.ctx, k, p, (s.ctx th.ctx).lsubs k⟩] } := by
+             snaps := s.snaps ++ [⟨th.ctx, k, p, (s.ctx th.ctx).lsubs k, th⟩] } := by
   have hrest : noDlv rest := by have := h.tail th; rw [hprog] at this; exact this
   have hnone : headDlv (s.prog th) = none := by rw [hprog]; rfl
   constructor
@@ -218,7 +218,7 @@ theorem dlvInv_snapLocal {s : State} {th : Th} {k : Key} {p : Pub} {rest : List 
         obtain ⟨rfl, rfl, rfl, rfl⟩ := hx
         refine ⟨(s.ctx th'.ctx).lsubs k, by simp, hset.lsubs _ _, hne, fun r hr => hr, ?_⟩
         intro r _ it hit
-        obtain ⟨rs0, hs0, -⟩ := h.got_snap _ _ _ hit
+        obtain ⟨rs0, tk, hs0, -⟩ := h.got_snap _ _ _ hit
         have := lt_of_getElem?_some hs0
         simp only [setProg_ctx] at *
         omega
@@ -247,8 +247,8 @@ theorem dlvInv_snapLocal {s : State} {th : Th} {k : Key} {p : Pub} {rest : List 
     · simp only [e1, e2, if_false] at hx1 hx2
       exact h.uniq th1 th2 sid rs k1 p1 rs' k2 p2 hx1 hx2
   · intro c r it hit
-    obtain ⟨rs0, h1, h2⟩ := h.got_snap c r it hit
-    exact ⟨rs0, getElem?_append_of_some h1, h2⟩
+    obtain ⟨rs0, tk, h1, h2⟩ := h.got_snap c r it hit
+    exact ⟨rs0, tk, getElem?_append_of_some h1, h2⟩
   · intro c r
     exact h.got_once c r
   · intro sid sn hs r hr
@@ -355,7 +355,7 @@ theorem dlvInv_deliver {s : State} {th : Th} {sid : Nat} {rs : List Rcv} {k : Ke
     rw [hgot] at hit
     rcases hit with hit | ⟨rfl, rfl, rfl⟩
     · exact h.got_snap c r it hit
-    · exact ⟨rs0, w1, w4 _ hr0⟩
+    · exact ⟨rs0, th, w1, w4 _ hr0⟩
   · intro c r
     simp only [setProg_ctx, setCtx_ctx]
     by_cases hc : c = th.ctx
